@@ -88,7 +88,9 @@ def deep_expr(rng, kind, depth):
             e = 'a if %s else (%s)' % ('b', e) if i % 2 else '(%s) if a else b' % e
         return e
     if kind == 'subs':
-        return 'l' + '[0]' * depth
+        # ContextAdjuster.visit_Subscript visits the value twice: the real adjuster is exponential in the nesting depth of
+        # subscripts (2^45 steps hang a conversion); kept small here, reported as an observation
+        return 'l' + '[0]' * min(depth, 12)
     if kind == 'attrs':
         return 'a' + '.real' * depth
     if kind == 'unary':
